@@ -170,7 +170,7 @@ def gen_wrap_streams(rng, count, end_styles=('marker', 'sized')):
             L = rng.range(5, 40); j = rng.range(1, L - 1)
             if kk + j >= L: pbld.match(kk + j, L)
         for _ in range(rng.range(3, 40)): pbld.random_sym(rng, rng.choice([1, 3]))
-        style = rng.choice(list(end_styles))
+        style = list(end_styles)[(k + 1) % len(end_styles)]       # cycle: every style occurs, deterministically
         reqs.append('ref_lzma lc=%d lp=%d pb=%d dict=%d size=%s delta=0 prog=%s' % (lc, lp, pb, rng.choice([0, 4096]), 'none' if style == 'marker' else str(pbld.n), pbld.text(style != 'sized')))
         metas.append({'props': (lc, lp, pb), 'dict': 4096, 'style': style, 'n': pbld.n, 'kinds': dict(pbld.kinds), 'big': True, 'nsyms': len(pbld.syms), 'wrap_literal': True})
     res = []
@@ -275,6 +275,7 @@ def run_C01(ck):
             trail = rng.bytes(rng.range(1, 30))
         rd = rng.choice(['all', 'all', '1', '3,1,7', 'std:slice', 'std:buf:%d' % rng.range(1, 40)])
         line = 'lzma_dec opt=%s in=%s rd=%s' % (opt, hx(data + trail), rd)
+        if s.get('big') or rng.chance(1, 5): line += ' wr=%s' % rng.choice(['all', '1', '3,1', '1000', '4095,2'])     # short-writing sinks, esp. when the window wraps
         cases.append({'line': line, 'meta': light(s), 'meta_full': s})
         ck.count('style_' + s['style']); ck.count('opt_' + opt.split(':')[0])
         for k, v in s['kinds'].items(): ck.count('sym_' + k, v)
@@ -554,6 +555,7 @@ def run_C02(ck):
         rd = rng.choice(['all', '1', '5,2', 'std:buf:%d' % rng.range(1, 50)])
         if entry == 0:
             line = 'lzma2_dec in=%s rd=%s' % (hx(s['bytes'] + trail), rd)
+            if rng.chance(1, 3): line += ' wr=%s' % rng.choice(['1', '3,1', '7', '1000,1'])
             fields = ['verdict', 'out', 'pos', 'fl']
             orc = exact_oracle(s['out'])
         elif entry == 1:
@@ -804,13 +806,26 @@ def run_C17(ck):
     rng = Rng(ck.seed).fork('C17')
     streams = gen_lzma2_streams(rng, 120 if ck.tier == 'quick' else 800)
     cases = []
+    def lzma2_stored(b_):
+        out_, first_ = b'', True
+        for i_ in range(0, len(b_), 65536):
+            piece_ = b_[i_:i_ + 65536]
+            out_ += bytes([1 if first_ else 2]) + struct.pack('>H', len(piece_) - 1) + piece_; first_ = False
+        return out_ + b'\x00'
     def add(desc, mutant, wrap):
-        if wrap:
+        if wrap and rng.chance(1, 3) and len(mutant) < 60000:
+            # the malformed stream is what the FIRST of two chained LZMA2 filters delivers to the second
+            line = 'xz_dec in=%s' % hx(xz_file([XzBlock(lzma2_stored(mutant), b'', nfilters=2)], check=0))
+            desc = desc + '_chained'
+        elif wrap:
             line = 'xz_dec in=%s' % hx(xz_file([XzBlock(mutant, b'')], check=0))
         else:
             line = 'lzma2_dec in=%s rd=%s' % (hx(mutant), rng.choice(['all', '1', '4,9']))
         cases.append({'line': line, 'meta': {'mutation': desc}})
         ck.count('mut_' + desc)
+    add('missing_end_byte', b'', True)          # the empty byte string is not an LZMA2 stream (also as the inner stream of a filter chain)
+    cases.append({'line': 'xz_dec in=%s' % hx(xz_file([XzBlock(b'\x00', b'', nfilters=2)], check=1)), 'meta': {'mutation': 'missing_end_byte_chained_empty'}})
+    cases.append({'line': 'xz_dec in=%s' % hx(xz_file([XzBlock(b'\x00', b'', nfilters=3)], check=4)), 'meta': {'mutation': 'missing_end_byte_chained_empty'}})
     for s in streams:
         b = s['bytes']
         fr = walk_lzma2(b)
@@ -952,8 +967,8 @@ def run_C18(ck):
     pool = [p for p in gen_lzma2_streams(rng, 20 if ck.tier == 'quick' else 60) if len(p['bytes']) < 3000]
     files = gen_xz_files(rng, 25 if ck.tier == 'quick' else 200, pool)
     cases = []
-    def add(desc, b, must_err=True):
-        cases.append({'line': 'xz_dec in=%s' % hx(b), 'meta': {'feature': desc}, 'must_err': must_err}); ck.count('feat_' + desc.split('=')[0])
+    def add(desc, b, must_err=True, rd=None):
+        cases.append({'line': 'xz_dec in=%s%s' % (hx(b), ' rd=%s' % rd if rd else ''), 'meta': {'feature': desc}, 'must_err': must_err}); ck.count('feat_' + desc.split('=')[0])
     for f in files:
         blocks, nb = f['blocks'], len(f['blocks'])
         for cid in range(16):
@@ -984,6 +999,9 @@ def run_C18(ck):
                 add('check_id=%d_empty_blocks' % cid, xz_file(eb, cid))
         other = rng.choice(files)
         add('second_stream', f['bytes'] + other['bytes'])
+        L_ = len(f['bytes'])
+        for tail_ in (other['bytes'], bytes(4), bytes(8) + other['bytes'], rng.bytes(rng.range(1, 9))):
+            add('after_stream_reader_boundary', f['bytes'] + tail_, rd=rng.choice(['%d,%d' % (L_, rng.range(1, 9)), 'std:buf:%d' % L_, '%d,1' % L_, '1']))
         for padlen in (4, 8, 12, 16):
             add('stream_padding=%d' % padlen, f['bytes'] + bytes(padlen))
             add('padding_then_stream', f['bytes'] + bytes(padlen) + other['bytes'])
@@ -1142,10 +1160,39 @@ def run_C05(ck):
                 cuts = [chunkings(rng, len(data), h) for h in hows]
             one = {'line': 'lzma_dec opt=%s in=%s' % (opt, hx(data)), 'meta': {'kind': kind, 'opt': opt}}
             cases.append(one)
+            if kind == 'valid' and opt == 'rfh' and len(data) > 18:
+                # with allow_incomplete a complete, valid stream must still come out whole (every symbol is decoded by the writes;
+                # nothing is left staged when the first write carries header and coder preamble)
+                for lens_ in cuts[:3]:
+                    l2_ = list(lens_)
+                    while len(l2_) > 1 and l2_[0] < 18: l2_ = [l2_[0] + l2_[1]] + l2_[2:]
+                    cases.append({'line': 'stream opt=%s allow=1 calls=%s' % (opt, stream_calls(data, l2_)),
+                                  'meta': {'kind': 'valid_allow_incomplete', 'opt': opt, 'pieces': len(l2_)}, 'oneshot': one, 'n': len(data), 'npieces': len(l2_)})
+                    ck.count('kind_valid_allow_incomplete')
             for lens in cuts:
                 cases.append({'line': 'stream opt=%s calls=%s' % (opt, stream_calls(data, lens, rng=rng if rng.chance(1, 3) else None)),
                               'meta': {'kind': kind, 'opt': opt, 'pieces': lens if len(lens) < 40 else len(lens)}, 'oneshot': one, 'n': len(data), 'npieces': len(lens)})
                 ck.count('kind_' + kind); ck.count('opt_' + opt.split(':')[0])
+    treqs = []
+    for k in range(3 if quick else 12):
+        lc, lp, pb = rand_props(rng)
+        pbld = random_program(rng, rng.range(5, 30), 4096, lit_bias=2)
+        x_ = rng.below(256)
+        for _ in range(rng.range(400, 700)): pbld.lit(x_)          # a tail of almost free symbols (a trained literal costs ~0.05 bit): the last
+                                                                   # dozen are decoded after the final input byte has been read
+        treqs.append(('ref_lzma lc=%d lp=%d pb=%d dict=4096 size=%d delta=0 prog=%s' % (lc, lp, pb, pbld.n, pbld.text(False)), pbld.n))
+    for e_, (rq_, n_) in zip(ref_encode([t[0] for t in treqs]), treqs):
+        if e_ is None: raise InfraError('reference encoder rejected a cheap-tail program')
+        data = e_[0]
+        one = {'line': 'lzma_dec opt=rfh in=%s' % hx(data), 'meta': {'kind': 'cheap_tail', 'opt': 'rfh'}}
+        cases.append(one)
+        for how in ('whole', 'random', 'bytes', 'single'):
+            l2_ = chunkings(rng, len(data), how)
+            while len(l2_) > 1 and l2_[0] < 18: l2_ = [l2_[0] + l2_[1]] + l2_[2:]
+            for allow_ in (0, 1):
+                cases.append({'line': 'stream opt=rfh allow=%d calls=%s' % (allow_, stream_calls(data, l2_)), 'meta': {'kind': 'cheap_tail', 'opt': 'rfh', 'allow': allow_, 'pieces': len(l2_)},
+                              'oneshot': one, 'n': len(data), 'npieces': len(l2_)})
+                ck.count('kind_cheap_tail')
     cases.append({'line': 'stream opt=rfh calls=x', 'meta': {'kind': 'empty'}, 'empty': True})
     cases.append({'line': 'stream opt=rfh calls=W:-;W:-;x', 'meta': {'kind': 'empty'}, 'empty': True})
     run_both(ck, cases)
@@ -1219,6 +1266,30 @@ def run_C08(ck):
                             lens = [len(data) - len(trailing), len(trailing)]        # the trailing bytes arrive in a write of their own
                         cases.append({'line': 'stream opt=%s calls=%s' % (opt, stream_calls(data, lens)), 'meta': m, 'expect': expect, 'true_out': out, 'stream': True})
                     ck.count('eff_' + ('none' if eff is None else 'eq' if eff == T else 'gt' if eff > T else 'lt')); ck.count('opt_' + opt.split(':')[0])
+    raws = []
+    rreqs, rmetas = [], []
+    for k in range(12 if quick else 80):
+        lc, lp, pb = rand_props(rng)
+        pbld = random_program(rng, rng.range(1, 30), 4096, lit_bias=2)
+        rreqs.append('ref_payload lc=%d lp=%d pb=%d window=4096 prog=%s' % (lc, lp, pb, pbld.text(False)))
+        rmetas.append(((lc, lp, pb), pbld.n))
+    for enc, (pr, n_) in zip(ref_encode(rreqs), rmetas):
+        if enc is None: raise InfraError('reference encoder rejected a C08 raw program')
+        a_ = rng.choice([0, 1, n_ + 1, n_ + 7, max(0, n_ - 1)])
+        if a_ == n_: a_ += 1
+        hist = rng.choice([['rs:%d' % n_, 'r'], ['rs:%d' % n_, 'r', 'r'], ['rs:%d' % (n_ + 3), 'rs:%d' % n_, 'r'], ['rn', 'rs:%d' % n_, 'r']])
+        raws.append({'line': 'raw_lzma lc=%d lp=%d pb=%d dict=4096 size=%d ops=%s;d:%s' % (pr[0], pr[1], pr[2], a_, ';'.join(hist), hx(enc[0])),
+                     'meta': {'api': 'raw', 'built_with': a_, 'size_in_effect': n_, 'history': hist}, 'raw_out': enc[1]})
+        ck.count('raw_size_in_effect_after_resets')
+    run_both(ck, raws)
+    for c in raws:
+        ck.note_case(c['line'])
+        def oracle_raw(c):
+            last = c['r'].get('res', '').split(';')[-1].split(':')
+            if len(last) < 3 or last[1] != 'ok': return 'size in effect %d (set by reset, then reset(None)) but a payload of exactly that many bytes was not decoded: %s' % (c['meta']['size_in_effect'], ':'.join(last)[:60])
+            if unhx(last[2]) != c['raw_out']: return 'raw decoder output differs after reset(Some(n)); reset(None)'
+            return None
+        judge(ck, c, ['res'], oracle_raw, 'both', premise_guard=True)
     run_both(ck, cases)
     for c in cases:
         ck.note_case(c['line'])
@@ -1392,6 +1463,13 @@ def run_C09(ck):
                     ck.count('lzma2_room_for_copy')
         cases.append({'line': line, 'meta': meta, 'good_out': out})
         ck.count('api_' + meta['api'])
+        if meta['api'] == 'lzma' and 'mem' not in meta and rng.chance(1, 3):
+            # the same stream through the streaming decoder (the copy is usually within the last 20 input bytes: dry-run territory),
+            # with and without allow_incomplete: some call must fail, and nothing fabricated may reach the sink
+            lens = chunkings(rng, len(b), rng.choice(['whole', 'random', 'single', 'bytes' if len(b) < 200 else 'random']))
+            m2 = dict(meta, api='stream', allow=rng.below(2))
+            cases.append({'line': 'stream opt=rfh allow=%d calls=%s' % (m2['allow'], stream_calls(b, lens)), 'meta': m2, 'good_out': out})
+            ck.count('api_stream')
     run_both(ck, cases)
     for c in cases:
         ck.note_case(c['line'])
@@ -1401,12 +1479,16 @@ def run_C09(ck):
                 parts = r.get('res', '').split(';')
                 v = parts[1].split(':')[1] if len(parts) > 1 else 'err'
                 out = unhx(parts[1].split(':')[2]) if len(parts) > 1 else b''
+            elif c['meta']['api'] == 'stream':
+                calls = r.get('res', '').split(';')
+                v = 'panic' if any('panic' in x for x in calls) else ('ok' if calls[-1] == 'x:ok' and not any(x.startswith('W:err') for x in calls) else 'err')
+                out = unhx(r.get('out', '-'))
             else:
                 v, out = r.get('verdict'), unhx(r.get('out', '-'))
             if v != 'err': return 'a copy reaching outside the produced window (%s) was not rejected: %s' % (c['meta']['desc'], v)
             if not is_prefix(out, c['good_out']): return 'bytes were fabricated for an out-of-window reference'
             return None
-        judge(ck, c, ['res'] if c['meta']['api'] == 'raw' else ['verdict', 'out'], oracle, 'both', premise_guard=True)
+        judge(ck, c, ['res'] if c['meta']['api'] == 'raw' else ['res', 'out'] if c['meta']['api'] == 'stream' else ['verdict', 'out'], oracle, 'both', premise_guard=True)
 
 # ------------------------------------------------------------------ C10: memory limit
 @prop('C10', 'LZMA streams (well-formed, incl. outputs larger than the dictionary; also corrupted) x limits m in {0, 1, need-1, need, need+1, dict-1, dict, none} where need = min(dictionary, produced), one-shot and streaming under random chunkings; with need <= m the result must equal the unlimited run, otherwise an error with a prefix of the output; peak heap of the window measured by the counting allocator; non-trivial = limit within 2 of need or dict')
@@ -1456,6 +1538,12 @@ def run_C10(ck):
             raw.append({'line': 'raw_lzma lc=%d lp=%d pb=%d dict=%d size=none mem=%d ops=d:%s' % (pr[0], pr[1], pr[2], d, m_, hx(enc[0])),
                         'meta': {'need': need, 'dict': d, 'T': T, 'm': m_, 'api': 'raw'}, 'raw_out': enc[1]})
             ck.count('raw_m_vs_need_' + ('lt' if m_ < need else 'eq' if m_ == need else 'gt'))
+            if rng.chance(1, 2):
+                # built with a small declared size (within the limit), then reset to another size / to end-marker mode: same limit
+                small_ = rng.choice([0, 1, max(0, m_ - 1), m_])
+                raw.append({'line': 'raw_lzma lc=%d lp=%d pb=%d dict=%d size=%d mem=%d ops=%s;d:%s' % (pr[0], pr[1], pr[2], d, small_, m_, rng.choice(['rn', 'rn', 'rs:%d' % (T + 5) + ';rn']), hx(enc[0])),
+                            'meta': {'need': need, 'dict': d, 'T': T, 'm': m_, 'api': 'raw', 'reset': True}, 'raw_out': enc[1]})
+                ck.count('raw_limit_after_reset')
     run_both(ck, raw)
     for c in raw:
         ck.note_case(c['line'])
@@ -1463,7 +1551,9 @@ def run_C10(ck):
             m = c['meta']; parts = c['r'].get('res', '').split(';')
             if 'panic' in c['r'].get('res', ''): return 'raw decoder panicked under a memory limit'
             if len(parts) < 2: return None
-            v, out = parts[1].split(':')[1], unhx(parts[1].split(':')[2])
+            dpart = [x for x in parts if x.startswith('d:')]
+            if not dpart: return None
+            v, out = dpart[-1].split(':')[1], unhx(dpart[-1].split(':')[2])
             if m['need'] <= m['m']:
                 if v != 'ok' or out != c['raw_out']: return 'raw decoder: limit %d >= needed window %d but the stream was not decoded exactly' % (m['m'], m['need'])
             else:
@@ -1949,10 +2039,14 @@ def run_C15(ck):
             if hdr == 5 and len(P) > 12 and rng.chance(1, 2):
                 k1 = rng.range(1, 9); lens = [k1, len(P) - k1]          # tiny first write, then a long one
             calls = ';'.join('W:%s;g' % hx(p) for p in pieces(P, lens)) + ';x'
-            c = {'line': 'stream opt=%s allow=1 calls=%s' % (opt, calls), 'meta': {'cut': cut, 'of': len(b), 'pieces': len(lens), 'opt': opt}, 'true_out': s['out'], 'cut': cut, 'need': hdr + 5}
+            mem_ = ' mem=%d' % rng.choice([max(s['dict'], 4096), max(s['dict'], 4096) + 1, 1 << 33]) if rng.chance(1, 4) and s['dict'] < (1 << 31) else ''
+            if s.get('big') and s['dict'] <= 8192 and s['n'] > max(s['dict'], 4096):
+                # output longer than the dictionary: a limit equal to the dictionary is never reached, whatever size is declared
+                mem_ = ' mem=%d' % (max(s['dict'], 4096) + (cut % 2))
+            c = {'line': 'stream opt=%s%s allow=1 calls=%s' % (opt, mem_, calls), 'meta': {'cut': cut, 'of': len(b), 'pieces': len(lens), 'opt': opt, 'mem': mem_.strip()}, 'true_out': s['out'], 'cut': cut, 'need': hdr + 5}
             # what is determined by the input minus the allowed look-ahead
             short = b[:max(0, cut - 64)]
-            c['short'] = {'line': 'stream opt=%s allow=1 calls=W:%s;x' % (opt, hx(short)), 'meta': {'aux': 'prefix minus 64'}}
+            c['short'] = {'line': 'stream opt=%s%s allow=1 calls=W:%s;x' % (opt, mem_, hx(short)), 'meta': {'aux': 'prefix minus 64'}}
             cases += [c, c['short']]
             ck.count('prefix_in_header' if cut < hdr + 5 else 'prefix_in_payload'); ck.count('opt_' + opt.split(':')[0])
     run_both(ck, cases)
@@ -2018,7 +2112,8 @@ def run_C16(ck):
                 for _ in range(rng.range(1, 3)):
                     calls.append('w:%s' % hx(rng.bytes(rng.range(1, 30)))); calls.append('g'); calls.append('o')
                 calls.append('x')
-                cases.append({'line': 'stream opt=%s calls=%s' % (sopt, ';'.join(calls)), 'meta': {'kind': kind, 'style': s['style'], 'n': s['n'], 'opt': sopt}, 'n': s['n'], 'style': s['style'],
+                allow_ = ' allow=1' if kind in ('corrupt', 'bad_header', 'marker_then_garbage') and rng.chance(1, 2) else ''
+                cases.append({'line': 'stream opt=%s%s calls=%s' % (sopt, allow_, ';'.join(calls)), 'meta': {'kind': kind, 'style': s['style'], 'n': s['n'], 'opt': sopt, 'allow': bool(allow_)}, 'n': s['n'], 'style': s['style'],
                               'kind': kind, 'true_out': s['out'], 'valid_len': len(b)})
                 ck.count('kind_' + kind)
     # the declared size falls strictly inside a match: the copy carries the output past the size without ever equalling it;
